@@ -212,6 +212,18 @@ def edge_texts():
         for use in ["JMP %s", "JR %s", "LD R0, %s", "MOV (%s), R1", "CALL %s", "DEC %s", "LDSP (%s)"]:
             out.append("#! mrasm\n%s:\n%s\n" % (d, use % r))
         out.append("#! mrasm\n.EQU %s 5\nLD R1, %s\n" % (d, r))
+    # the 41st definition repeats the name just defined (same / other case, label / constant): still 41 definitions
+    forty = "\n".join("L%d:" % i for i in range(40))
+    for extra in ["L39:", "l39:", ".EQU L39 5", ".EQU l39 5", "L39:\nl39:\nL39:", "L0:"]:
+        out.append("#! mrasm\n%s\n%s\n" % (forty, extra))
+    out.append("#! mrasm\n" + "\n".join(".EQU e%d %d" % (i, i) for i in range(40)) + "\n.EQU e39 9\n")
+    out.append("#! mrasm\n" + "\n".join("L%d:\nl%d:" % (i, i) for i in range(21)) + "\n")
+    # two operands that are both names: each combination of defined / undefined, for every two-operand mnemonic and operand form
+    for mn in ["MOV", "CMP", "BITT", "BITS", "BITC"]:
+        for dst, src in [("(buf)", "nowhere"), ("(nowhere)", "buf"), ("(buf)", "(nowhere)"), ("(nowhere)", "(buf)"), ("(buf)", "buf"), ("(buf)", "BUF"), ("(k)", "nowhere"), ("(nowhere)", "k")]:
+            out.append("#! mrasm\nbuf:\n.EQU k 7\n %s %s, %s\n" % (mn, dst, src))
+    for line in ["LD R0, nowhere", "LD R0, (nowhere)", "ST (nowhere), R0", "LDSP nowhere", "LDFR (nowhere)", "DEC nowhere", "JR nowhere", "CALL nowhere", ".DB nowhere", ".ORG nowhere"]:
+        out.append("#! mrasm\nbuf:\n MOV (buf), buf\n %s\n" % line)
     # long names that agree on their first n characters and differ afterwards (n around every plausible truncation length)
     stem = "WAIT_UNTIL_THE_TEMPERATURE_SENSOR_IS_READY_AND_THE_FAN_HAS_REACHED_ITS_SPEED_"
     for n in [7, 8, 15, 16, 20, 24, 30, 31, 32, 33, 39, 40, 41, 47, 48, 63, 64, 65]:
